@@ -105,6 +105,8 @@ type c18Case struct {
 	// Kids > 0: the nested part: Kids overlays built from one parent overlay that wraps an overlay of Depth layers
 	Kids  int `json:"kids,omitempty"`
 	Depth int `json:"depth,omitempty"`
+	// Hist: the history part: events on the layers of one long-lived overlay
+	Hist []string `json:"hist,omitempty"`
 }
 
 // openOnlyFS hides everything but Open.
@@ -295,7 +297,75 @@ func (c *c18Case) runNested(ctx *core.Ctx) {
 	ctx.Outcome(fmt.Sprint(c.Depth, c.Kids))
 }
 
+// runHistory: one overlay over layers that change while it is alive (directories on disk, maps
+// edited in place): after every change it answers like an overlay created now over the same layers.
+func (c *c18Case) runHistory(ctx *core.Ctx) {
+	ctx.NonTrivial()
+	upper, lower := fstest.MapFS{"keep.txt": {Data: []byte("U-keep"), ModTime: baseTime}}, fstest.MapFS{"d/f.txt": {Data: []byte("L-f"), ModTime: baseTime, Mode: 0o644}, "keep.txt": {Data: []byte("L-keep-longer"), ModTime: baseTime.Add(time.Hour)}}
+	long := vuego.NewOverlayFS(upper, lower)
+	observe := func(o fs.FS) string {
+		var sb strings.Builder
+		for _, p := range []string{"d/f.txt", "keep.txt", "d", "d/g.txt"} {
+			b, err := fs.ReadFile(o, p)
+			fi, serr := fs.Stat(o, p)
+			size, mt := int64(-1), ""
+			if serr == nil {
+				size, mt = fi.Size(), fi.ModTime().UTC().Format(time.RFC3339)
+				if fi.IsDir() {
+					size = -2
+				}
+			}
+			fmt.Fprintf(&sb, "%s=%q/%v/%d/%s;", p, b, err != nil, size, mt)
+		}
+		ents, err := fs.ReadDir(o, "d")
+		fmt.Fprintf(&sb, "dir=%v/%v;", names(ents), err != nil)
+		gl, _ := fs.Glob(o, "d/*")
+		fmt.Fprintf(&sb, "glob=%v", gl)
+		return sb.String()
+	}
+	ver := 0
+	for i, ev := range c.Hist {
+		ver++
+		later := baseTime.Add(time.Duration(ver) * time.Minute)
+		switch ev {
+		case "look":
+		case "add-upper":
+			upper["d/f.txt"] = &fstest.MapFile{Data: []byte(fmt.Sprintf("U-f-v%d-longer", ver)), ModTime: later, Mode: 0o600}
+		case "del-upper":
+			delete(upper, "d/f.txt")
+		case "add-upper-g":
+			upper["d/g.txt"] = &fstest.MapFile{Data: []byte("U-g"), ModTime: later}
+		case "del-lower":
+			delete(lower, "d/f.txt")
+		case "add-lower":
+			lower["d/f.txt"] = &fstest.MapFile{Data: []byte(fmt.Sprintf("L-f-v%d", ver)), ModTime: later, Mode: 0o644}
+		case "upper-file-d": // the upper layer gets a FILE called d
+			delete(upper, "d/f.txt")
+			delete(upper, "d/g.txt")
+			upper["d"] = &fstest.MapFile{Data: []byte("file-d"), ModTime: later}
+		case "upper-undo-d":
+			delete(upper, "d")
+		}
+		if _, isFile := upper["d"]; isFile {
+			ctx.Zone("file-over-directory")
+			continue
+		}
+		ctx.Eval(2)
+		ctx.Transition(1)
+		got, want := observe(long), observe(vuego.NewOverlayFS(upper, lower))
+		if got != want {
+			ctx.Violation("history", "layers-change", ev, fmt.Sprintf("history %v: the overlay that has been answering all along says\n  %s\nan overlay created now over the same layers says\n  %s", c.Hist[:i+1], got, want))
+			return
+		}
+	}
+	ctx.Outcome(strings.Join(c.Hist, ">"))
+}
+
 func (c *c18Case) Run(ctx *core.Ctx) {
+	if len(c.Hist) > 0 {
+		c.runHistory(ctx)
+		return
+	}
 	if c.Kids > 0 {
 		c.runNested(ctx)
 		return
@@ -662,6 +732,14 @@ func init() {
 					}
 				}
 			}
+			hev := []string{"look", "add-upper", "del-upper", "add-upper-g", "del-lower", "add-lower", "upper-file-d", "upper-undo-d"}
+			tokenStrings(hev, 4, func(tok []int) {
+				var h []string
+				for _, i := range tok {
+					h = append(h, hev[i])
+				}
+				emit(&c18Case{Hist: h})
+			})
 			for depth := 1; depth <= 9; depth++ {
 				for kids := 1; kids <= 3; kids++ {
 					emit(&c18Case{Kids: kids, Depth: depth})
